@@ -1053,6 +1053,11 @@ class _TRSTractList:
             elif isinstance(obj, cls._ok_iterables):
                 for obj_deeper in obj:
                     into.append(obj_deeper)
+            elif isinstance(obj, str):
+                # A str that is not an acceptable individual would be
+                # iterated over endlessly (each char is itself a str).
+                raise TypeError(
+                    f"{cls._typeerror_msg} Cannot accept {type(obj)!r}.")
             else:
                 # Assume it's another list-like object.
                 for obj_deeper in obj:
